@@ -22,3 +22,15 @@
         __CPROVER_assume(0); \
     } 1; })
 #endif
+
+/* partial-correctness variant (no termination claim): for lock-free retry loops and wait loops whose termination
+ * depends on other threads */
+#define LOOP_RULE_PC(NAME, seen) ({ \
+    if (!(seen)) { (seen) = 1; \
+        __CPROVER_assert(INV_##NAME, "LOOP " #NAME ": invariant holds on entry"); \
+        HAVOC_##NAME; \
+        __CPROVER_assume(INV_##NAME); \
+    } else { \
+        __CPROVER_assert(INV_##NAME, "LOOP " #NAME ": invariant preserved by the loop body"); \
+        __CPROVER_assume(0); \
+    } 1; })
